@@ -9,10 +9,16 @@ cd "$wt" || exit 2
 git checkout -q -- . 2>/dev/null; git apply SEEDED/patch.diff || { echo "CONFIRM apply failed"; exit 2; }
 go build ./... || { echo "CONFIRM build failed"; exit 2; }
 cp SEEDED/demo_test.go "$pkg/zz_seeded_demo_test.go"
-go test "./$pkg/" -run "$re" -count=1 >/tmp/confirm_with.txt 2>&1; with=$?
+# private scratch directory: several confirmations may run side by side
+priv="$wt-confirm-tmp"; rm -rf "$priv"; mkdir -p "$priv"
+TMPDIR="$priv" go test "./$pkg/" -run "$re" -count=1 >"$priv/with.txt" 2>&1; with=$?
 git apply -R SEEDED/patch.diff
-go test "./$pkg/" -run "$re" -count=1 >/tmp/confirm_without.txt 2>&1; without=$?
+TMPDIR="$priv" go test "./$pkg/" -run "$re" -count=1 >"$priv/without.txt" 2>&1; without=$?
 git apply SEEDED/patch.diff
 rm -f "$pkg/zz_seeded_demo_test.go"
-python3 /tmp/tools/cmp_baseline.py "$wt" > /tmp/confirm_baseline.txt 2>&1; rm -rf /tmp/chain4energy-e2e-testnet-test*
-echo "CONFIRM $(basename $wt): demo_with_change_exit=$with demo_without_exit=$without baseline=$(head -1 /tmp/confirm_baseline.txt)"
+# SEEDED/ holds a demo test file: keep it out of `go test ./...`
+mv SEEDED "$priv/SEEDED"
+TMPDIR="$priv" python3 /tmp/tools/cmp_baseline.py "$wt" > "$priv/baseline.txt" 2>&1
+mv "$priv/SEEDED" SEEDED
+echo "CONFIRM $(basename $wt): demo_with_change_exit=$with demo_without_exit=$without baseline=$(head -1 "$priv/baseline.txt")"
+rm -rf "$priv"
